@@ -232,6 +232,7 @@ type c09Obs struct {
 	label    string
 	usedSeen map[string]bool
 	oldX     string // identifier of a pre-existing expired registration
+	oldZ     []string
 	oldY     string // identifier of a pre-existing used registration (must survive)
 }
 
@@ -347,18 +348,23 @@ func c09RunSchedule(t testing.TB, rec *kit.Rec, sc c09Scenario, choose func(n in
 	o.pubBase = 0
 	// pre-existing state for the sweeper: X expired (11 min, unused), Y used (11 min, must survive)
 	if sc.Sweeper {
-		for i, name := range []string{"X", "Y"} {
+		for i, name := range []string{"X", "Y", "Z1", "Z2"} {
 			sec := mkSecret()
 			regs, err := e.rm.parseRegMessage(c09Message(sec, phantom, 100+i, pb.RegistrationSource_API))
 			if err != nil || len(regs) != 1 {
 				t.Fatalf("pre-existing %s: %v", name, err)
 			}
 			e.rm.ingestRegistration(regs[0])
-			if name == "Y" {
+			switch name {
+			case "Y":
 				e.rm.MarkActive(regs[0])
 				o.oldY = ident(sec)
-			} else {
+			case "X":
 				o.oldX = ident(sec)
+			default:
+				// further expired, never used registrations that are due in the same sweep as X: whatever
+				// happens to X (it may be activated between scan and removal), these must be forgotten
+				o.oldZ = append(o.oldZ, ident(sec))
 			}
 			o.keys[ident(sec)] = 100 + i
 		}
@@ -399,7 +405,7 @@ func c09RunSchedule(t testing.TB, rec *kit.Rec, sc c09Scenario, choose func(n in
 		s.spawn("A", func() {
 			// what a connection handler does: look up, and activate what it found
 			for id, r := range e.rm.GetRegistrations(phantom) {
-				if hid := kit.Hex([]byte(id)); o.keys[hid] != 0 && (hid != o.oldX || sc.ActivateExpiring) && hid != o.oldY {
+				if hid := kit.Hex([]byte(id)); o.keys[hid] != 0 && (hid != o.oldX || sc.ActivateExpiring) && hid != o.oldY && !c09In(o.oldZ, hid) {
 					e.rm.MarkActive(r.(*DecoyRegistration))
 					o.usedSeen[kit.Hex([]byte(id))] = true
 				}
@@ -435,6 +441,12 @@ func c09RunSchedule(t testing.TB, rec *kit.Rec, sc c09Scenario, choose func(n in
 			rd.m.RLock()
 		}
 	}
+	zLeft := 0
+	for _, z := range o.oldZ {
+		if _, there := rd.decoys[phantom.String()][unhex(z)]; there {
+			zLeft++
+		}
+	}
 	_, xThere := rd.decoys[phantom.String()][unhex(o.oldX)]
 	_, yThere := rd.decoys[phantom.String()][unhex(o.oldY)]
 	rd.m.RUnlock()
@@ -458,11 +470,24 @@ func c09RunSchedule(t testing.TB, rec *kit.Rec, sc c09Scenario, choose func(n in
 		case !o.usedSeen[o.oldX] && xThere:
 			o.viol("sweep:expired-registration-survived", "an expired registration is still tracked after the sweep completed", nil)
 		}
+		if zLeft > 0 {
+			o.viol("sweep:expired-registration-survived:others-due-in-the-same-sweep", "expired, never used registrations are still tracked after the sweep that was due to remove them completed",
+				map[string]interface{}{"still_tracked": zLeft, "of": len(o.oldZ)})
+		}
 		if !yThere {
 			o.viol("sweep:live-registration-removed", "a used registration younger than 6 h was removed by the sweep", nil)
 		}
 	}
 	return strings.Join(tr, " ")
+}
+
+func c09In(l []string, x string) bool {
+	for _, y := range l {
+		if y == x {
+			return true
+		}
+	}
+	return false
 }
 
 func unhex(s string) string {
